@@ -77,7 +77,6 @@ Fixpoint sem (w : list batch) : list log * list batch * option err :=
       end
   end.
 
-Definition is_data (b : batch) : bool := match classify b with KData => true | _ => false end.
 Definition datas (w : list batch) : list batch := filter is_data w.
 
 (* does the first EXCEPTION-level log of the cycle come after a data batch? *)
@@ -272,54 +271,112 @@ Section Transp.
   Proof. reflexivity. Qed.
 
   (* ---- one collector cycle ---- *)
-  Theorem transparent_cycle : forall c url s cyc dsz mr fetch,
+  Lemma pointer_equiv : forall url s cyc mr fetch,
     Forall (fun b => b_schema b = s /\ has_loc b = false) cyc ->
-    (forall sz, dsz = Some sz -> exists d, datas cyc = [d]) ->
+    (exists d, datas cyc = [d]) ->
     exc_after_data false cyc = false ->
-    (forall u, snd (ext_collector sha_ser url c s cyc dsz) = Some u -> forall k, fetch url k = fetch_of (Some (stored_of u))) ->
-    equiv (drain (fun b => resolve_with true mr true b fetch) (fst (ext_collector sha_ser url c s cyc dsz)))
+    (forall k, fetch url k = FData (view_of B sha parse (ser s cyc))) ->
+    equiv (drain (fun b => resolve_with true mr true b fetch) [pointer s url (Some (sha_ser s cyc))])
           (drain (fun b => resolve_with true mr true b fetch) cyc).
   Proof.
-    intros c url s cyc dsz mr fetch HF Hone Hexc Hfaith.
+    intros url s cyc mr fetch HF Hone Hexc Hf.
     assert (Hl : Forall (fun b => has_loc b = false) cyc) by (eapply Forall_impl; [|exact HF]; intros a [_ H]; exact H).
     assert (Hin : drain (fun b => resolve_with true mr true b fetch) cyc = sem cyc).
     { apply drain_inline. intros b Hb _. apply resolve_non_pointer. rewrite Forall_forall in Hl. apply Hl. exact Hb. }
-    unfold ext_collector in *.
-    destruct (negb (c_storage c)); [apply equiv_refl|].
-    destruct dsz as [sz|]; [|apply equiv_refl].
-    destruct (sz <? c_thr c); [apply equiv_refl|].
-    simpl fst. simpl snd in Hfaith.
     rewrite Hin. rewrite drain_single_data by apply classify_pointer.
-    assert (Hf : forall k, fetch url k = FData (view_of B sha parse (ser s cyc))).
-    { intro k. rewrite (Hfaith _ eq_refl k). rewrite fetch_stored. reflexivity. }
     rewrite (resolve_pointer_faithful s cyc url mr fetch HF Hf).
     destruct (sem cyc) as [[lg ds] e] eqn:Es.
     destruct e as [e|].
     - pose proof (sem_err_rpc _ _ _ _ Es) as ->.
       destruct (sem_exc_no_data _ _ _ _ _ Es Hexc) as [-> _]. apply equiv_refl.
-    - apply sem_none_datas in Es. destruct (Hone sz eq_refl) as [d Hd]. rewrite Hd in Es. subst ds.
+    - apply sem_none_datas in Es. destruct Hone as [d Hd]. rewrite Hd in Es. subst ds.
       repeat split; simpl.
       + apply app_nil_r.
       + rewrite strip_prov_resolved. reflexivity.
   Qed.
 
+  Lemma head_tail_app : forall w, w = fst (head_tail w) ++ snd (head_tail w).
+  Proof.
+    induction w as [|b r IH]; simpl; [reflexivity|].
+    destruct (is_data b); [reflexivity|].
+    destruct (head_tail r) as [h t]. simpl in *. rewrite IH at 1. reflexivity.
+  Qed.
+
+  Lemma head_exc : forall w, exc_after_data false (fst (head_tail w)) = false.
+  Proof.
+    induction w as [|b r IH]; simpl; [reflexivity|].
+    unfold is_data. destruct (classify b) eqn:Hc.
+    - simpl. rewrite Hc. reflexivity.
+    - destruct (head_tail r) as [h t]. simpl in *. rewrite Hc. exact IH.
+    - destruct (head_tail r) as [h t]. simpl. rewrite Hc. reflexivity.
+    - destruct (head_tail r) as [h t]. simpl in *. rewrite Hc. exact IH.
+  Qed.
+
+  Lemma head_datas : forall w d r, datas w = d :: r -> datas (fst (head_tail w)) = [d].
+  Proof.
+    induction w as [|b w' IH]; intros d r H; [discriminate|].
+    unfold datas in *. simpl in *. destruct (is_data b) eqn:Hd.
+    - inversion H; subst. simpl. rewrite Hd. reflexivity.
+    - destruct (head_tail w') as [h t] eqn:Eh. simpl. rewrite Hd. simpl in IH. eapply IH. exact H.
+  Qed.
+
+  Lemma head_forall : forall (P : batch -> Prop) w, Forall P w -> Forall P (fst (head_tail w)).
+  Proof.
+    intros P w H. rewrite (head_tail_app w) in H. apply Forall_app in H. exact (proj1 H).
+  Qed.
+
+  (* [ser_all] = the shape of the source.  As found (true) the theorem needs the side condition that no
+     EXCEPTION-level log follows the data batch; with the tail kept inline (false) it holds for every cycle. *)
+  Theorem transparent_cycle : forall (ser_all : bool) c url s cyc dsz mr fetch,
+    Forall (fun b => b_schema b = s /\ has_loc b = false) cyc ->
+    (forall sz, dsz = Some sz -> exists d, datas cyc = [d]) ->
+    (ser_all = true -> exc_after_data false cyc = false) ->
+    (forall u, snd (ext_collector ser_all sha_ser url c s cyc dsz) = Some u -> forall k, fetch url k = fetch_of (Some (stored_of u))) ->
+    equiv (drain (fun b => resolve_with true mr true b fetch) (fst (ext_collector ser_all sha_ser url c s cyc dsz)))
+          (drain (fun b => resolve_with true mr true b fetch) cyc).
+  Proof.
+    intros ser_all c url s cyc dsz mr fetch HF Hone Hexc Hfaith.
+    unfold ext_collector in *.
+    destruct (negb (c_storage c)); [apply equiv_refl|].
+    destruct dsz as [sz|]; [|apply equiv_refl].
+    destruct (sz <? c_thr c); [apply equiv_refl|].
+    destruct (Hone sz eq_refl) as [d Hd].
+    destruct ser_all.
+    - simpl fst. simpl snd in Hfaith.
+      apply pointer_equiv; auto. exists d; exact Hd.
+      intro k. rewrite (Hfaith _ eq_refl k). rewrite fetch_stored. reflexivity.
+    - pose proof (head_tail_app cyc) as Happ.
+      destruct (head_tail cyc) as [h t] eqn:Eh. simpl fst in *. simpl snd in *.
+      cbv beta iota in *. simpl fst. simpl snd in Hfaith.
+      replace (drain (fun b => resolve_with true mr true b fetch) cyc)
+        with (drain (fun b => resolve_with true mr true b fetch) (h ++ t)) by (rewrite <- Happ; reflexivity).
+      change (pointer s url (Some (sha_ser s h)) :: t) with ([pointer s url (Some (sha_ser s h))] ++ t).
+      apply equiv_app; [|apply equiv_refl].
+      assert (Hh : h = fst (head_tail cyc)) by (rewrite Eh; reflexivity).
+      apply pointer_equiv.
+      + rewrite Hh. apply head_forall. exact HF.
+      + exists d. rewrite Hh. eapply head_datas. exact Hd.
+      + rewrite Hh. apply head_exc.
+      + intro k. rewrite (Hfaith _ eq_refl k). rewrite fetch_stored. reflexivity.
+  Qed.
+
   (* ---- a whole stream: any number of cycles, each with its own upload URL ---- *)
-  Definition ext_wire (c : cfg) (s : N) (cycles : list (list batch * option N * bytes)) : list batch :=
-    flat_map (fun x => fst (ext_collector sha_ser (snd x) c s (fst (fst x)) (snd (fst x)))) cycles.
+  Definition ext_wire (ser_all : bool) (c : cfg) (s : N) (cycles : list (list batch * option N * bytes)) : list batch :=
+    flat_map (fun x => fst (ext_collector ser_all sha_ser (snd x) c s (fst (fst x)) (snd (fst x)))) cycles.
   Definition inline_wire (cycles : list (list batch * option N * bytes)) : list batch :=
     flat_map (fun x => fst (fst x)) cycles.
 
-  Theorem transparent_stream : forall c s mr fetch cycles,
+  Theorem transparent_stream : forall (ser_all : bool) c s mr fetch cycles,
     Forall (fun x =>
               Forall (fun b => b_schema b = s /\ has_loc b = false) (fst (fst x)) /\
               (forall sz, snd (fst x) = Some sz -> exists d, datas (fst (fst x)) = [d]) /\
-              exc_after_data false (fst (fst x)) = false /\
-              (forall u, snd (ext_collector sha_ser (snd x) c s (fst (fst x)) (snd (fst x))) = Some u ->
+              (ser_all = true -> exc_after_data false (fst (fst x)) = false) /\
+              (forall u, snd (ext_collector ser_all sha_ser (snd x) c s (fst (fst x)) (snd (fst x))) = Some u ->
                          forall k, fetch (snd x) k = fetch_of (Some (stored_of u)))) cycles ->
-    equiv (drain (fun b => resolve_with true mr true b fetch) (ext_wire c s cycles))
+    equiv (drain (fun b => resolve_with true mr true b fetch) (ext_wire ser_all c s cycles))
           (drain (fun b => resolve_with true mr true b fetch) (inline_wire cycles)).
   Proof.
-    intros c s mr fetch cycles. induction cycles as [|x r IH]; intro H.
+    intros ser_all c s mr fetch cycles. induction cycles as [|x r IH]; intro H.
     - apply equiv_refl.
     - inversion H as [|y l Hx Hr]; subst. destruct Hx as (H1 & H2 & H3 & H4).
       unfold ext_wire, inline_wire. simpl flat_map. apply equiv_app.
@@ -378,13 +435,13 @@ Section Transp.
   Qed.
 
   (* ---- below the threshold / without storage nothing changes ---- *)
-  Theorem below_threshold_untouched : forall url c s cyc dsz size b,
+  Theorem below_threshold_untouched : forall (ser_all : bool) url c s cyc dsz size b,
     (c_storage c = false \/ (forall sz, dsz = Some sz -> sz < c_thr c) ->
-       ext_collector sha_ser url c s cyc dsz = (cyc, None)) /\
+       ext_collector ser_all sha_ser url c s cyc dsz = (cyc, None)) /\
     (c_storage c = false \/ b_rows b = 0 \/ size < c_thr c ->
        ext_batch sha_ser url c size b = (b, None)).
   Proof.
-    intros url c s cyc dsz size b. split.
+    intros ser_all url c s cyc dsz size b. split.
     - intros [H|H]; unfold ext_collector.
       + rewrite H. reflexivity.
       + destruct (negb (c_storage c)); [reflexivity|]. destruct dsz as [sz|]; [|reflexivity].
